@@ -69,6 +69,7 @@ def main(n=3000):
         def apr():
             b = bytearray(); b.append(x); b += struct.pack('>h', vals[0] if vals else 0); b.extend(array.array('B', uv)); return b
         bad += _same(ap, apr, 1); runs += 1
+    bad += quot_conformance(); runs += 2000
     print('conformance: %d runs, %d mismatches' % (runs, bad))
     global RUNS
     RUNS = runs
@@ -76,5 +77,27 @@ def main(n=3000):
 
 
 RUNS = 0
+
+
+def quot_conformance(n=2000):
+    """SymQuot.trunc (model of int(x / +-2^j)) against CPython"""
+    import z3
+    rnd = random.Random(int(__import__('os').environ.get('VERIF_SEED', '0')) + 7)
+    ctx = core.Ctx('sym'); core.CUR = ctx
+    try:
+        x = ctx.int('qx', -(2**64) + 1, 2**64 - 1)
+        bad = 0
+        for k in (1, -1, 2, -2):
+            t = core.SymQuot(x, k).trunc()
+            for _ in range(n // 4):
+                v = rnd.choice([rnd.randint(-2**64 + 1, 2**64 - 1), rnd.randint(2**53 - 5, 2**53 + 5), -rnd.randint(2**53 - 5, 2**54 + 5),
+                                rnd.randint(-10, 10), (1 << rnd.randint(53, 63)) + rnd.choice([1, 2, 3, 1025]) * rnd.choice([1, 3, 5])])
+                got = z3.simplify(z3.substitute(t.e, (x.e, z3.IntVal(v)))).as_long()
+                if got != int(v / k): bad += 1; print('QUOT MISMATCH', v, k)
+        return bad
+    finally:
+        core.CUR = None
+
+
 if __name__ == '__main__':
     sys.exit(main())
